@@ -443,8 +443,8 @@ func (e *SpecEnv) eval(x SpecExpr) (Term, error) {
 			if err != nil {
 				return Term{}, err
 			}
-			vc.n++
-			name := fmt.Sprintf("q_%s_%d", mangle(b.Name), vc.n)
+			(*vc.ctr)++
+			name := fmt.Sprintf("q_%s_%d", mangle(b.Name), (*vc.ctr))
 			s := vc.sortOf(ty)
 			ne.vars[b.Name] = Term{S: name, Sort: s, T: ty}
 			bs = append(bs, fmt.Sprintf("(%s %s)", name, s))
